@@ -58,6 +58,9 @@ def main():
         for p in touched:
             d, rel = moddir(p)
             rc, o = sh(["go", "test", "-vet=off", "-count=1", "-run", "^Test", rel], d)
+            if rc and "address already in use" in o:
+                # the repository's own socket tests race for a free port now and then
+                rc, o = sh(["go", "test", "-vet=off", "-count=1", "-run", "^Test", rel], d)
             meta["ran"].append({"cmd": "go test -run ^Test %s" % rel, "rc": rc, "tail": o[-300:]})
             if rc:
                 raise SystemExit("existing tests fail with the change in %s:\n%s" % (p, o[-2000:]))
